@@ -38,22 +38,52 @@ fn kind_name(f: &Fault) -> &'static str {
 /// programs: histories ending in a pruning operation whose last step solves at least one LP
 pub fn programs(tier: Tier) -> Vec<HCase> {
     // fixed strides through the deterministic enumeration of the (quick) C03 space
-    let stride = match tier { Tier::Quick => 3001, Tier::Thorough => 251 };
+    let stride = match tier { Tier::Quick => 1499, Tier::Thorough => 251 };
     let mut v = super::c03::cases_strided(Tier::Quick, stride);
-    v.extend(far_programs());
+    v.extend(far_programs(1e6));
+    v.extend(far_programs(1e9));
+    v.extend(touching_programs());
     v
 }
 
-/// trees whose regions lie millions of units from the origin (thresholds 5e6 / 7e6, 2-D: a far corner)
-fn far_programs() -> Vec<HCase> {
+/// an eliminated tree (cached witnesses) whose regions are met by the grafted thresholds in a single point or a
+/// segment only
+fn touching_programs() -> Vec<HCase> {
+    use crate::gen::{Aff, TSpec};
+    use crate::hist::{GSpec, Init};
+    let r1 = |a: &[f64], b: f64| Aff::row1(a, b);
+    let lin = |c: f64| Some(TSpec::Leaf(Aff::row1(&[1.0], c)));
+    let inner = TSpec::Dec(r1(&[-1.0], -1.0), vec![lin(0.0), Some(TSpec::Dec(r1(&[1.0], 5.0), vec![lin(0.0), lin(0.0)]))]);
+    let k = |c: f64| Some(TSpec::Leaf(Aff::row1(&[0.0], c)));
+    let mut v = vec![];
+    for th in [5.0f64, 1.0, 3.0] {
+        for flip in [false, true] {
+            let outer = if flip { TSpec::Dec(r1(&[1.0], th), vec![k(10.0), k(20.0)]) } else { TSpec::Dec(r1(&[-1.0], -th), vec![k(10.0), k(20.0)]) };
+            v.push(HCase { init: Init::Spec(inner.clone()), ops: vec![Op::Elim, Op::Compose(GSpec::User(outer.clone()), true)] });
+            v.push(HCase { init: Init::Spec(inner.clone()), ops: vec![Op::Compose(GSpec::User(outer), true)] });
+        }
+    }
+    let id2 = |c: f64| Some(TSpec::Leaf(Aff::new(vec![vec![1.0, 0.0], vec![0.0, 1.0]], vec![c, 0.0])));
+    let inner2 = TSpec::Dec(r1(&[-1.0, 0.0], -1.0), vec![id2(0.0), Some(TSpec::Dec(r1(&[1.0, 1.0], 5.0), vec![id2(0.0), id2(0.0)]))]);
+    let k2 = |c: f64| Some(TSpec::Leaf(Aff::row1(&[0.0, 0.0], c)));
+    for (a, b) in [([1.0, 1.0], 5.0), ([-1.0, -1.0], -5.0), ([-1.0, 0.0], -1.0)] {
+        let outer = TSpec::Dec(r1(&a, b), vec![k2(10.0), k2(20.0)]);
+        v.push(HCase { init: Init::Spec(inner2.clone()), ops: vec![Op::Elim, Op::Compose(GSpec::User(outer), true)] });
+    }
+    v
+}
+
+/// trees whose regions lie far from the origin (thresholds 5 and 7 times `unit`, 2-D: a far corner)
+pub fn far_programs(unit: f64) -> Vec<HCase> {
     use crate::gen::{Aff, TSpec};
     use crate::hist::{GSpec, Init};
     let r1 = |a: &[f64], b: f64| Aff::row1(a, b);
     let k1 = |c: f64| Some(TSpec::Leaf(Aff::row1(&[0.0], c)));
-    let t1 = TSpec::Dec(r1(&[1.0], 5e6), vec![Some(TSpec::Dec(r1(&[1.0], 7e6), vec![k1(3.0), k1(2.0)])), k1(1.0)]);
-    let t1b = TSpec::Dec(r1(&[-1.0], -5e6), vec![k1(1.0), Some(TSpec::Dec(r1(&[-1.0], -7e6), vec![k1(2.0), k1(3.0)]))]);
+    let (u5, u7) = (5.0 * unit, 7.0 * unit);
+    let t1 = TSpec::Dec(r1(&[1.0], u5), vec![Some(TSpec::Dec(r1(&[1.0], u7), vec![k1(3.0), k1(2.0)])), k1(1.0)]);
+    let t1b = TSpec::Dec(r1(&[-1.0], -u5), vec![k1(1.0), Some(TSpec::Dec(r1(&[-1.0], -u7), vec![k1(2.0), k1(3.0)]))]);
     let k2 = |c: f64| Some(TSpec::Leaf(Aff::row1(&[0.0, 0.0], c)));
-    let t2 = TSpec::Dec(r1(&[1.0, 0.0], 5e6), vec![Some(TSpec::Dec(r1(&[0.0, 1.0], -7e6), vec![k2(3.0), k2(2.0)])), k2(1.0)]);
+    let t2 = TSpec::Dec(r1(&[1.0, 0.0], u5), vec![Some(TSpec::Dec(r1(&[0.0, 1.0], -u7), vec![k2(3.0), k2(2.0)])), k2(1.0)]);
     let mut v = vec![];
     for t in [t1.clone(), t1b] {
         v.push(HCase { init: Init::Spec(t.clone()), ops: vec![Op::Elim] });
@@ -70,6 +100,8 @@ struct Prepared {
     last: Op,
     unpruned: Snap,
     before_snap: Snap,
+    /// result of the fault-free run (filled in by the first run_plan call with an empty plan)
+    fault_free: std::cell::RefCell<Option<Snap>>,
 }
 
 fn prepare(c: &HCase) -> Option<Prepared> {
@@ -91,7 +123,7 @@ fn prepare(c: &HCase) -> Option<Prepared> {
         uo.run(&mut u, d).ok()?;
     }
     let before_snap = snap(&p);
-    Some(Prepared { before: p, d, last, unpruned: snap(&u), before_snap })
+    Some(Prepared { before: p, d, last, unpruned: snap(&u), before_snap, fault_free: std::cell::RefCell::new(None) })
 }
 
 /// one faulty run; returns (LP calls made, faults injected)
@@ -128,9 +160,27 @@ fn run_plan(pr: &Prepared, plan: &[(usize, Fault)], rec: &dyn Fn() -> serde_json
     for (tag, msg) in cache_sound(&s).into_iter().take(1) {
         fail(out, "cache", tag, msg, json!({"arena_after": s.to_json()}));
     }
-    let judged = compare_pruned(&pr.unpruned, &s, out, &mut |_| {});
+    let (judged, thin) = compare_pruned_all(&pr.unpruned, &s, out, &mut |_| {});
     if let Some(m) = judged.first() {
         fail(out, "function", "function".into(), mismatch_summary(m), json!({"mismatch": m.to_json(), "arena_after": s.to_json()}));
+    }
+    if plan.is_empty() {
+        *pr.fault_free.borrow_mut() = Some(s.clone());
+    } else if let Some(s0) = pr.fault_free.borrow().as_ref() {
+        // "the only permitted effect is less pruning": where the fault-free run keeps a region that is thinner than the
+        // LP tolerance (and so agrees with the un-pruned function there), the faulted run must keep it too
+        let n = s.in_dim;
+        let at = |t: &Snap, x: &[crate::q::Q]| {
+            let mut g = vec![];
+            t.route(&crate::regions::AffMap::identity(n), n, x, &mut g).map(|o| o.map(|(_, m)| m.apply(x)))
+        };
+        for m in thin.iter().take(8) {
+            let want = at(&pr.unpruned, &m.point);
+            if want.is_ok() && at(s0, &m.point) == want && at(&s, &m.point) != want {
+                fail(out, "more_pruning", "thin_region_lost".into(), format!("at x={:?} the fault-free run agrees with the un-pruned tree, the faulted run does not: {}", crate::q::fmt_vec(&m.point), mismatch_summary(m)), json!({"mismatch": m.to_json(), "arena_after": s.to_json()}));
+                break;
+            }
+        }
     }
     if pr.last == Op::Elim {
         for (tag, msg) in structural_elim(&pr.before_snap, &s).into_iter().take(1) {
@@ -232,8 +282,9 @@ pub fn cache_under_witness_faults(tier: Tier) -> CaseOut {
         let n = hooks::calls();
         hooks::clear();
         for i in 0..n {
-            // Unbounded leaves a node in the state Feasible (no witness) above the nodes processed next
-            for k in [Fault::Perturbed(1e-6), Fault::Perturbed(1e-3), Fault::FarOff(1e3), Fault::FarOff(-100.0), Fault::FarOff(3.0), Fault::FarOff(f64::NAN), Fault::Unbounded] {
+            // Unbounded leaves a node in the state Feasible (no witness) above the nodes processed next, Error leaves it
+            // Indeterminate next to decided siblings
+            for k in [Fault::Perturbed(1e-6), Fault::Perturbed(1e-3), Fault::FarOff(1e3), Fault::FarOff(-100.0), Fault::FarOff(3.0), Fault::FarOff(f64::NAN), Fault::Unbounded, Fault::Error("injected".into())] {
                 let mut t = pr.before.clone();
                 hooks::set_plan(vec![(i, k.clone())]);
                 let res = pr.last.run(&mut t, pr.d);
